@@ -49,6 +49,12 @@ func (c14) Gen(rs uint64, tier string, race bool) interface{} {
 	n := 1 + r.Intn(7)
 	l := 1 + r.Intn(10)
 	lower := r.Chance(0.25)
+	tall := r.Chance(0.004)
+	if tall {
+		// many rows: counts around the capacity of a byte (a character carried 255, 256, 257 ... times in a column)
+		n = r.Pick(255, 256, 257, 258, 300, 512, 513, 514)
+		l = r.Range(1, 3)
+	}
 	cols := make([][]byte, l)
 	for k := range cols {
 		col := make([]byte, n)
@@ -79,9 +85,22 @@ func (c14) Gen(rs uint64, tier string, race bool) interface{} {
 		}
 		for i := range col {
 			col[i] = pal[r.Intn(len(pal))]
+			if tall {
+				// one character of the palette in all rows but 0-2 of them
+				col[i] = pal[0]
+				if i < r.Intn(3) && len(pal) > 1 {
+					col[i] = pal[1]
+				}
+			}
 			if lower && r.Chance(0.35) && col[i] >= 'A' && col[i] <= 'Z' {
 				col[i] += 'a' - 'A'
 			}
+		}
+		if tall && n > 2 {
+			j := r.Intn(n)
+			col[0], col[j] = col[j], col[0]
+			j = r.Intn(n)
+			col[1], col[j] = col[j], col[1]
 		}
 		cols[k] = col
 	}
